@@ -28,7 +28,7 @@ fn decode(data: &[u8]) -> (usize, Option<usize>, Vec<Op>) {
     };
     let mut ops = vec![];
     while r.i < data.len() && ops.len() < 400 {
-        let op = match r.next(1) % 12 {
+        let op = match r.next(1) % 14 {
             0 | 1 => {
                 let n = r.next(1) as usize % 64;
                 Op::Write((0..n).map(|_| r.next(1) as u8).collect())
@@ -56,7 +56,9 @@ fn decode(data: &[u8]) -> (usize, Option<usize>, Vec<Op>) {
             }),
             9 => Op::SetPosition(r.next(2) % 6000),
             10 => Op::AsBytes,
-            _ => Op::StreamPosition,
+            11 => Op::StreamPosition,
+            12 => Op::CloneSwap,
+            _ => Op::PokeMut(r.next(2) as usize % 6000, (r.next(1) as u8) | 1),
         };
         ops.push(op);
     }
